@@ -320,6 +320,10 @@ pub fn run_program<A: Z>(p: &Program, ar: &Arenas) -> Exec {
                     }
                 }
             }
+            // documented: after deflateInit2/deflateReset and before the first call of deflate
+            Op::DSetHeader { which, .. } if d_called[*which] && !d[*which].state.is_null() => {
+                r.rc = -999;
+            }
             Op::DSetHeader { which, fields } => match fields {
                 Some(f) => {
                     let mut h = make_gz_header(f);
